@@ -107,6 +107,16 @@ def number(spec):
     if kind == 'stddec':
         import decimal
         f = Fraction(val)
+        # exact whatever the number of digits (stdlib division would round to the context's
+        # 28 digits): write the decimal literal
+        n, d, k = f.numerator, f.denominator, 0
+        while k < 400 and (10 ** k) % d:
+            k += 1
+        if (10 ** k) % d == 0:
+            n, d = n * (10 ** k // d), 1
+            digits = str(abs(n)).rjust(k + 1, '0')
+            lit = ('-' if n < 0 else '') + (digits[:-k] + '.' + digits[-k:] if k else digits)
+            return decimal.Decimal(lit)
         return decimal.Decimal(f.numerator) / decimal.Decimal(f.denominator)
     raise ValueError(kind)
 
